@@ -42,6 +42,9 @@ def gen_tree(rnd, depth, sp, par):
     if op == "^":
         # exponents: small numbers mostly, sometimes an expression
         e = ["num", float(rnd.choice([2, 3, 0.5, 1.5, -1, 2.5, 4]))] if rnd.random() < 0.7 else gen_tree(rnd, min(depth - 1, 1), sp, par)
+        if e[0] == "num" and abs(e[1]) > 12:
+            # x^759 is outside the finite domain at every evaluation point (and sends sympy into very long computations)
+            e = ["num", float("%.3g" % (e[1] % 7))]
         return ["^", gen_tree(rnd, depth - 1, sp, par), e]
     return [op, gen_tree(rnd, depth - 1, sp, par), gen_tree(rnd, depth - 1, sp, par)]
 
@@ -168,6 +171,7 @@ def run_case(case):
         return {"viol": viol, "counters": dict(C), "nontrivial": True}
 
     tree = case["tree"]
+    rj0 = random.Random(util.digest(["copy", case["tree"]]))
     ids = set(n[1] for n in ref.walk(tree) if n[0] in ("sp", "par"))
     # build through every route
     routes = {}
@@ -185,6 +189,16 @@ def run_case(case):
                   initial_condition_dict={s: 1.0 for s in sp})
         routes["model.parse_general_expression"] = M.parse_general_expression(text)
         itf = ModelCSimInterface(M)
+        # the same expression after a trip through pickle / deepcopy (a model handed to a worker process, a saved model):
+        # still the written formula
+        import pickle, copy
+        try:
+            routes["pickled term"] = pickle.loads(pickle.dumps(routes["parse_expression"], protocol=rj0.choice([2, 3, 4, 5])))
+            M2 = copy.deepcopy(M) if rj0.random() < 0.5 else pickle.loads(pickle.dumps(M))
+            routes["copied model"] = (M2, ModelCSimInterface(M2))
+            C["copied_routes"] += 1
+        except Exception as e:
+            viol.append({"key": "C02/copy-raises", "msg": "pickling / copying the term or model for %r raised %r" % (text, e)})
     except Exception as e:
         C["rejected_valid_in_model"] += 1
         M = None
@@ -236,6 +250,19 @@ def run_case(case):
             st2 = xm.copy()
             itf.py_apply_repeated_volume_rules(st2, V, t, True)
             got["assignment rule (volume)"] = (st2[idx["Y"]], eV)
+            if "pickled term" in routes:
+                got["pickled term.py_evaluate"] = (routes["pickled term"].py_evaluate(xs.copy(), ps.copy(), t), e1)
+                got["pickled term.py_volume_evaluate"] = (routes["pickled term"].py_volume_evaluate(xs.copy(), ps.copy(), V, t), eV)
+            if "copied model" in routes:
+                M2, itf2 = routes["copied model"]
+                pr2 = M2.get_propensities()[0]
+                got["copied model: general.py_get_propensity"] = (pr2.py_get_propensity(xm.copy(), pm.copy(), t), e1)
+                got["copied model: general.py_get_volume_propensity"] = (pr2.py_get_volume_propensity(xm.copy(), pm.copy(), V, t), eV)
+                M2.set_params({q: p[q] for q in par})
+                M2.set_params({q: p[q[1:]] for q in extra})
+                st3 = xm.copy()
+                itf2.py_apply_repeated_rules(st3, t, True)
+                got["copied model: assignment rule"] = (st3[idx["Y"]], e1)
         for route, (g, e) in got.items():
             C["accepted_evaluations"] += 1
             if not (math.isfinite(g) and close(g, e)):
